@@ -46,7 +46,8 @@ variable [Add α] [Sub α] [Mul α] [Zero α] [One α]
 /-- `tensor.norm()`. -/
 def tnorm (ops : NumOps α) (T : Dense α) : α := ops.sqrt (normSq T)
 
-/-- `rank = parse_one_d(rank); if len(rank) == 1: rank = rank.repeat(N)`. -/
+/-- `rank = parse_one_d(rank); if len(rank) == 1: rank = rank.repeat(N)` (the length test that
+follows, commit 11afd42, is in `tuckerAlsRun`). -/
 def parseRank (rank : List Nat) (N : Nat) : List Nat :=
   match rank with
   | [r] => List.replicate N r
@@ -157,6 +158,9 @@ def tuckerAlsRun (ops : NumOps α) (nvecs : Nat → Dense α → Nat → Nat →
   if maxiters < 0 then .error .reject
   else
     let rank := parseRank rank N
+    -- `if len(rank) != N: raise` (11afd42)
+    if rank.length != N then .error .reject
+    else
     let order := modeOrder dimorder N
     if !isPermOf order N then .error .reject
     else
